@@ -65,7 +65,13 @@ CASES: List[Tuple[str, bool, str, str]] = [
     ("interned-keyword-constant-or-call", True,
      "class A:\n    K_OBJ = KWD(b'obj')\n    def f(self, t):\n        if t is KWD(b'obj'):\n            return 1\n        return 0\n",
      "class A:\n    K_OBJ = KWD(b'obj')\n    def f(self, t):\n        if t is self.K_OBJ:\n            return 1\n        return 0\n"),
+    ("store-then-reload-folded", True,
+     "class A:\n    def f(self, d, w):\n        if w is None:\n            self.dw = num_value(d.get('MissingWidth', 0))\n        else:\n            self.dw = w\n        self.dw = resolve1(self.dw)\n",
+     "class A:\n    def f(self, d, w):\n        dw = num_value(d.get('MissingWidth', 0)) if w is None else w\n        self.dw = resolve1(dw)\n"),
     # ------------------------------------------------------------------ must stay different
+    ("reload-through-another-function", False,
+     "class A:\n    def f(self, d):\n        self.dw = num_value(d)\n        self.dw = resolve1(self.dw)\n",
+     "class A:\n    def f(self, d):\n        self.dw = num_value(d)\n        self.dw = int_value(self.dw)\n"),
     ("other-interned-keyword", False,
      "class A:\n    K_OBJ = KWD(b'obj')\n    K_END = KWD(b'endobj')\n    def f(self, t):\n        if t is KWD(b'obj'):\n            return 1\n        return 0\n",
      "class A:\n    K_OBJ = KWD(b'obj')\n    K_END = KWD(b'endobj')\n    def f(self, t):\n        if t is self.K_END:\n            return 1\n        return 0\n"),
